@@ -50,6 +50,7 @@ func init() {
 			obs = append(obs, c.LengthPrefixes("net/packet")...)
 			obs = append(obs, filterObs(c.NoReadAhead(), func(o core.Ob) bool { return strings.Contains(o.Key, "packet") || o.Key == "scope" })...)
 			obs = append(obs, c.CountingWrappers("net/packet")...)
+			obs = append(obs, c.FixedBitSetSize()...)
 			return obs
 		},
 	}
